@@ -154,7 +154,7 @@ class DictWriter:
                     # nasty python code annotations when writing to yaml.
                     if isinstance(tag, tuple):
                         prop_dict[attr] = list(tag)
-                    elif (tag == []) or tag:  # Even if 'values' is empty, allow '[]'
+                    elif tag is not None:  # Keep empty 'values' ('[]') and falsy numbers (0, 0.0)
                         # Custom odML tuples require special handling.
                         if attr == "values" and prop.dtype and \
                                 prop.dtype.endswith("-tuple") and prop.values:
